@@ -1,4 +1,4 @@
-import BreezyVerif.Lemmas.C41
+import BreezyVerif.Lemmas.C41B
 /-!
 C41 — testaments are deterministic and sensitive to every attested field.
 
@@ -112,12 +112,37 @@ theorem testament_sensitive_scalars (v : Variant) (r r' : Rev) (t t' : Str)
   · exact x e4
 
 /-- the record avoids the normalised families: parents stored in sorted order,
-whole-second timestamp, no `\` in paths and symlink targets, no path `.` -/
+whole-second timestamp, no `\` in paths and symlink targets, no path `.`,
+message and property values canonical for `splitlines` (`msgCanon`: the only
+line boundary is `\n`, none at the end) -/
 def Canon (r : Rev) : Bool :=
   decide (sortStrs r.parents = r.parents) &&
   decide (r.timestampMs % 1000 = 0) &&
   r.entries.all (fun e => !e.path.contains '\\' && !e.target.contains '\\' &&
-    e.path != ['.'] && (e.kind != .symlink || e.target != []))
+    e.path != ['.'] && (e.kind != .symlink || e.target != [])) &&
+  msgCanon r.message &&
+  r.props.all (fun nv => msgCanon nv.2)
+
+/-- `splitlines` loses nothing on canonical texts (the inverse is `"\n".join`) -/
+theorem splitlines_injective_canon (a b : Str) (ha : msgCanon a = true) (hb : msgCanon b = true)
+    (h : splitlines a = splitlines b) : a = b := splitlines_inj_canon ha hb h
+
+example : msgCanon "two\n\nlines, an empty one between".toList = true ∧ msgCanon [] = true ∧
+    msgCanon "a\n".toList = false ∧ msgCanon "a\rb".toList = false := by decide
+
+theorem map_inj_on {α β : Type} (f : α → β) :
+    ∀ {l l' : List α}, (∀ a ∈ l, ∀ b ∈ l', f a = f b → a = b) → l.map f = l'.map f → l = l' := by
+  intro l
+  induction l with
+  | nil => intro l' _ h; cases l' <;> simp_all
+  | cons a l ih =>
+    intro l' hf h
+    cases l' with
+    | nil => simp at h
+    | cons b l' =>
+      simp only [List.map_cons, List.cons.injEq] at h
+      rw [hf a (by simp) b (by simp) h.1,
+        ih (fun x hx y hy => hf x (by simp [hx]) y (by simp [hy])) h.2]
 
 theorem replBackslash_id {p : Str} (h : p.contains '\\' = false) : replBackslash p = p := by
   unfold replBackslash
@@ -134,18 +159,20 @@ theorem dotRoot_inj {v : Variant} {p p' : Str} (hp : p ≠ ['.']) (hp' : p' ≠ 
   unfold dotRoot at h
   split at h <;> split at h <;> simp_all
 
-/-- **Raw-field sensitivity** on canonical records (partial: messages and
-property values are still only attested as `splitlines`; the base class does
-not attest the executable bit or the last-changed revision).  When both
-records avoid the normalised families (`Canon`), equal texts force equal raw
-parent lists, equal millisecond timestamps and, entry by entry in `list_files`
-order, equal raw paths, kinds, file ids, sha1s (files) and raw symlink targets
-(symlinks). -/
+/-- **Raw-field sensitivity** on canonical records (partial only because the
+base class does not attest the executable bit or the last-changed revision:
+those are covered by `testament_injective_partial` for the strict classes).
+When both records avoid the normalised families (`Canon`), equal texts force
+equal raw parent lists, equal millisecond timestamps, equal RAW messages, equal
+RAW revision properties (as name-sorted lists) and, entry by entry in
+`list_files` order, equal raw paths, kinds, file ids, sha1s (files) and raw
+symlink targets (symlinks). -/
 theorem testament_sensitive_raw_partial (v : Variant) (r r' : Rev) (t : Str)
     (hw : RevWF v r = true) (hw' : RevWF v r' = true)
     (hcn : Canon r = true) (hcn' : Canon r' = true)
     (h : text v r = .ok t) (h' : text v r' = .ok t) :
     r.parents = r'.parents ∧ r.timestampMs = r'.timestampMs ∧
+    r.message = r'.message ∧ sortProps r.props = sortProps r'.props ∧
     (sortEntries r.entries).map (fun e => (e.path, e.kind, e.fileId,
         (if e.kind = .file then e.sha1 else []), (if e.kind = .symlink then e.target else []))) =
       (sortEntries r'.entries).map (fun e => (e.path, e.kind, e.fileId,
@@ -153,13 +180,21 @@ theorem testament_sensitive_raw_partial (v : Variant) (r r' : Rev) (t : Str)
   have ha := testament_injective_partial v r r' t hw hw' h h'
   simp only [Canon, Bool.and_eq_true, decide_eq_true_eq, List.all_eq_true, Bool.not_eq_true',
     bne_iff_ne, ne_eq, Bool.or_eq_true] at hcn hcn'
-  obtain ⟨⟨hp, hts⟩, hent⟩ := hcn
-  obtain ⟨⟨hp', hts'⟩, hent'⟩ := hcn'
+  obtain ⟨⟨⟨⟨hp, hts⟩, hent⟩, hmsg⟩, hprops⟩ := hcn
+  obtain ⟨⟨⟨⟨hp', hts'⟩, hent'⟩, hmsg'⟩, hprops'⟩ := hcn'
   have e5 := congrArg Attested.parents ha
   have e3 := congrArg Attested.timestamp ha
+  have e6 := congrArg Attested.message ha
   have e7 := congrArg Attested.entries ha
-  simp only [attested] at e5 e3 e7
-  refine ⟨by rw [← hp, ← hp', e5], ?_, ?_⟩
+  have e8 := congrArg Attested.props ha
+  simp only [attested] at e5 e3 e6 e7 e8
+  refine ⟨by rw [← hp, ← hp', e5], ?ts, splitlines_inj_canon hmsg hmsg' e6, ?props, ?ents⟩
+  case props =>
+    apply map_inj_on _ _ e8
+    intro a ha' b hb' hab
+    simp only [Prod.mk.injEq] at hab
+    exact Prod.ext hab.1 (splitlines_inj_canon (hprops a (List.mem_mergeSort.mp ha'))
+      (hprops' b (List.mem_mergeSort.mp hb')) hab.2)
   · unfold timestampOf at e3
     have d1 : (1000 : Int) ∣ r.timestampMs := Int.dvd_of_emod_eq_zero hts
     have d2 : (1000 : Int) ∣ r'.timestampMs := Int.dvd_of_emod_eq_zero hts'
@@ -211,6 +246,41 @@ theorem testament_sensitive_raw_partial (v : Variant) (r r' : Rev) (t : Str)
           · simp [hk]
     exact key (fun e he => hent e (List.mem_mergeSort.mp he))
       (fun e he => hent' e (List.mem_mergeSort.mp he)) e7
+
+/-! ### the short form (`as_short_text()`, the property's point of observation) -/
+
+/-- **The short form determines the long form**: if `sha` (UTF-8 encoding +
+SHA-1 + hex digest) is injective, two records with the same `as_short_text()`
+have the same `as_text()`.  (The revision-id line cannot hide a difference:
+ids are whitespace free, so the digest line is found unambiguously.) -/
+theorem short_text_determines_text (sha : Str → Str) (hinj : Function.Injective sha) (v : Variant)
+    (r r' : Rev) (s : Str) (h : shortText sha v r = .ok s) (h' : shortText sha v r' = .ok s) :
+    ∃ t, text v r = .ok t ∧ text v r' = .ok t := shortText_text hinj h h'
+
+/-- hence the short form attests everything the long form attests … -/
+theorem short_text_injective_partial (sha : Str → Str) (hinj : Function.Injective sha) (v : Variant)
+    (r r' : Rev) (s : Str) (hw : RevWF v r = true) (hw' : RevWF v r' = true)
+    (h : shortText sha v r = .ok s) (h' : shortText sha v r' = .ok s) : attested v r = attested v r' := by
+  obtain ⟨t, ht, ht'⟩ := shortText_text hinj h h'
+  exact testament_injective_partial v r r' t hw hw' ht ht'
+
+/-- … and changes whenever anything attested changes -/
+theorem short_text_sensitive_partial (sha : Str → Str) (hinj : Function.Injective sha) (v : Variant)
+    (r r' : Rev) (s s' : Str) (hw : RevWF v r = true) (hw' : RevWF v r' = true)
+    (h : shortText sha v r = .ok s) (h' : shortText sha v r' = .ok s')
+    (hne : attested v r ≠ attested v r') : s ≠ s' := by
+  intro e
+  subst e
+  exact hne (short_text_injective_partial sha hinj v r r' s hw hw' h h')
+
+/-- the short form is as deterministic as the long form (any `sha`) -/
+theorem short_text_storage_order_independent (sha : Str → Str) (v : Variant) (r r' : Rev)
+    (hid : r.revisionId = r'.revisionId) (ht : text v r = text v r') :
+    shortText sha v r = shortText sha v r' := by
+  unfold shortText
+  rw [ht, hid]
+
+example : Function.Injective (fun s : Str => 'h' :: s) := fun _ _ h => by simpa using h
 
 /-! ### the building blocks, restated -/
 
